@@ -494,7 +494,7 @@ class Interp(object):
         b["hasattr"] = self.b_hasattr
         b["setattr"] = self.b_setattr
         b["int"] = _TypeShim("int", self.b_int, lambda x: isinstance(x, int))
-        b["float"] = _TypeShim("float", self.b_float, lambda x: isinstance(x, (float, Fraction)))
+        b["float"] = _TypeShim("float", self.b_float, lambda x: isinstance(x, (float, Fraction)) or bool(getattr(x, "__axi_is_pyfloat__", False)))
         b["sum"] = self.b_sum
         b["classmethod"] = ClassMethod
         b["staticmethod"] = StaticMethod
@@ -515,7 +515,7 @@ class Interp(object):
         if isinstance(c, ArrayType):
             return isinstance(x, Arr)
         if c is float:
-            return isinstance(x, (float, Fraction))
+            return isinstance(x, (float, Fraction)) or bool(getattr(x, "__axi_is_pyfloat__", False))
         if c is int:
             return isinstance(x, int)
         if isinstance(c, type):
@@ -524,6 +524,8 @@ class Interp(object):
             raise Unsupported("isinstance against unmodelled type %r" % (c,))
         marker = getattr(c, "__axi_isinstance__", None)
         if marker is not None:
+            if isinstance(x, (float, Fraction)) and "pyfloat" in getattr(c, "kinds", ()):
+                return True
             return marker(x)
         raise Unsupported("isinstance against %r" % (c,))
 
@@ -567,6 +569,8 @@ class Interp(object):
         return int(x, *a)
 
     def b_float(self, x=0):
+        if hasattr(x, "__axi_kind__"):
+            return to_num(x.v)
         if isinstance(x, Arr):
             if x.size == 1 and x.is_concrete():
                 return to_num(x.elems[0])
@@ -1078,6 +1082,9 @@ class Interp(object):
         try:
             return f(a, b)
         except TypeError as e:
+            if isinstance(a, (Arr, Obj)) or isinstance(b, (Arr, Obj)) or hasattr(a, "__axi_kind__") or hasattr(b, "__axi_kind__"):
+                # possibly a gap of the abstract domain rather than an error of the analysed code: undecided
+                raise Unsupported("operator %s between %s and %s: %s" % (t.__name__, type(a).__name__, type(b).__name__, e))
             raise AbstractError("TypeError: %s" % e)
         except ZeroDivisionError as e:
             raise AbstractError("ZeroDivisionError: %s" % e)
@@ -1168,8 +1175,12 @@ class Interp(object):
             except KeyError as e:
                 raise AbstractError("KeyError: %s in %s" % (e, ast.unparse(node)[:80]))
             except IndexError as e:
+                if isinstance(v, (Arr, Obj)):
+                    raise Unsupported("host IndexError while indexing an abstract value: %s in %s" % (e, ast.unparse(node)[:80]))
                 raise AbstractError("IndexError: %s in %s" % (e, ast.unparse(node)[:80]))
             except TypeError as e:
+                if isinstance(v, (Arr, Obj)) or isinstance(k, (Arr, Obj)):
+                    raise Unsupported("host TypeError while indexing an abstract value: %s in %s" % (e, ast.unparse(node)[:80]))
                 raise AbstractError("TypeError: %s in %s" % (e, ast.unparse(node)[:80]))
         if t is ast.Tuple:
             return tuple(self._elts(node.elts, env, func))
@@ -1270,6 +1281,8 @@ class Interp(object):
         try:
             return f(a, b)
         except TypeError as e:
+            if isinstance(a, (Arr, Obj)) or isinstance(b, (Arr, Obj)) or hasattr(a, "__axi_kind__") or hasattr(b, "__axi_kind__"):
+                raise Unsupported("comparison %s between %s and %s: %s" % (t.__name__, type(a).__name__, type(b).__name__, e))
             raise AbstractError("TypeError: %s" % e)
 
     def contains(self, container, item):
